@@ -509,7 +509,44 @@ func c17Wrap(toks, cls []string, w []int, object bool) ([]string, []string, []in
 
 var c17Depths = []int{3, 4, 5, 7, 8, 9, 15, 16, 17, 31, 33, 40, 64, 65, 130}
 
+// c17Limit: documents nested exactly as deep as encoding/json allows (10000) are valid documents: every token comes
+var c17LimitOnce sync.Once
+
+func c17Limit(c *Ctx) {
+	for _, depth := range []int{9999, 10000} {
+		for _, obj := range []bool{false, true} {
+			open, cl, per := "[", "]", 1
+			if obj {
+				open, cl, per = `{"a":`, "}", 3
+			}
+			doc := []byte(strings.Repeat(open, depth) + "0" + strings.Repeat(cl, depth))
+			if !stdjson.Valid(doc) {
+				c.SpecError("C17", "encoding/json refuses a document nested to its own limit", depth)
+				return
+			}
+			k := c17Case{Doc: fmt.Sprintf("limit:%d:%v", depth, obj)}
+			n, maxDepth := 0, 0
+			var t *json.Tokenizer
+			c.Case()
+			c.Eval(1)
+			if p := protect(func() {
+				t = json.NewTokenizer(doc)
+				for t.Next() {
+					n++
+					if t.Depth > maxDepth {
+						maxDepth = t.Depth
+					}
+				}
+			}); p != "" || t.Err != nil || n != depth*per+1+depth || maxDepth != depth {
+				c.Diverge("C17", "Tokenizer(document nested to the limit of encoding/json)", fmt.Sprintf("%d tokens, greatest depth %d, no error", depth*per+1+depth, depth),
+					fmt.Sprintf("%d tokens, greatest depth %d, err=%v %s", n, maxDepth, t.Err, p), "", k)
+			}
+		}
+	}
+}
+
 func c17Vector(c *Ctx, raw stdjson.RawMessage) {
+	c17LimitOnce.Do(func() { c17Limit(c) })
 	var sv strVec
 	if stdjson.Unmarshal(raw, &sv) == nil && sv.Dir == "unesc" {
 		c.Nontrivial()
@@ -580,6 +617,10 @@ func c17Vector(c *Ctx, raw stdjson.RawMessage) {
 }
 
 func c17Replay(c *Ctx, raw stdjson.RawMessage) {
+	if bytes.Contains(raw, []byte(`"doc":"limit:`)) {
+		c17Limit(c)
+		return
+	}
 	var sk strCase
 	if stdjson.Unmarshal(raw, &sk) == nil && sk.Str != nil {
 		c17Literal(c, sk)
